@@ -129,6 +129,14 @@ NextBest == \E S \in (SUBSET {0, 3, 7}) \ {{}} : \E objs \in [S -> {R(0), R(1)}]
                       feasible |-> IF legacy THEN Pairs(rel) ELSE Pairs(all),
                       feasible_relaxed |-> IF legacy THEN <<>> ELSE Pairs(rel),
                       feasible_unrelaxed |-> IF legacy THEN Pairs(all) ELSE <<>>]])
+\* ---- C15: as_minimization_problem on objectives of every representation, both senses, twice (idempotence) -------------------
+AsMinObjs == { K(R(3)), L(<< T(1, R(2)), T(2, R(-1)) >>, R(1)), L(<<>>, R(-2)),
+               Q(<<>>, <<>>, <<>>, << L(<< T(1, R(1)) >>, <<1,2>>) >>), Q(<<1>>, <<2>>, <<R(2)>>, <<>>), Q(<<2, 1>>, <<1, 1>>, <<R(1), R(-1)>>, << L(<< T(2, R(3)) >>, Zero) >>),
+               Q(<<1>>, <<1>>, <<Zero>>, << L(<< T(1, R(-1)) >>, R(2)) >>),
+               P(<<>>), P(<< Mo(<<1, 1, 2>>, R(-1)), Mo(<<>>, R(4)) >>), P(<< Mo(<<2>>, R(1)) >>) }
+NextAsMin == \E o \in AsMinObjs, sense \in {"min", "max"}, x \in {R(0), R(1), R(2)}, y \in {R(0), R(1)} :
+    vec' = Ev("seq", [inst |-> Inst(sense, << V(1, "integer", B(R(0), R(2))), V(2, "binary", <<>>) >>, o, << C(5, "le", L(<< T(1, R(1)) >>, R(-1))) >>, <<>>, <<>>),
+                      ops |-> << [op |-> "as_min", st |-> <<>>], [op |-> "evaluate", st |-> << <<1, x>>, <<2, y>> >>], [op |-> "as_min", st |-> <<>>] >>])
 \* ---- C11: small binary objectives in every representation; refusal conditions ---------------------------------------------
 Cs3 == {R(-1), R(2), <<1,2>>}
 BinObjs == { K(R(3)), [kind |-> "none"] } \cup { L(<< T(i, c), T(j, d) >>, R(1)) : i \in {1, 2}, j \in {1, 2}, c \in Cs3, d \in {R(1), R(-2)} }
@@ -185,7 +193,8 @@ RtBounds == { <<>>, B(Zero, One), B(Zero, Zero), B(R(-3), R(-1)), B(R(0), R(-0))
 NextMpsRoundtrip ==
   \/ \E k \in {"continuous", "integer", "binary"}, b \in RtBounds, sense \in {"min", "max"}, k2 \in {"continuous", "integer"} :
        (k = "binary" => b \in { <<>>, B(Zero, One), B(Zero, Zero), B(One, One) }) /\
-       vec' = Ev("mps_roundtrip", [inst |-> Inst(sense, << V(14, k, b), V(3, k2, B(R(-1), R(4))), V(8, "integer", <<>>) >>,
+       \E k3 \in {"continuous", "integer"} :   \* variable 8 is used nowhere and sits between the two used ones
+       vec' = Ev("mps_roundtrip", [inst |-> Inst(sense, << V(14, k, b), V(8, k3, <<>>), V(3, k2, IF k3 = "integer" THEN <<>> ELSE B(R(-1), R(4))) >>,
                                                  L(<< T(14, R(2)), T(3, <<-1,2>>) >>, R(3)),
                                                  << C(21, "le", L(<< T(14, R(1)), T(3, R(1)) >>, R(-4))), C(4, "eq", K(R(0))), C(10, "le", K(R(-1))) >>, <<>>, <<>>)])
   \/ \E bad \in {"objective", "constraint", "both"} :
@@ -199,7 +208,7 @@ DoEvaluate == Step(NextTol \/ NextTolExact \/ NextIrrelevant \/ NextBinaryBound 
 DoLogEncode == Step(NextLogEncode)
 DoHistories == Step(NextHistories)
 DoSamples == Step(NextSamples \/ NextTolExact \/ NextSamplesHelpers)
-DoBest == Step(NextBest)
+DoBest == Step(NextBest \/ NextAsMin)
 DoQubo == Step(NextQubo)
 DoSlack == Step(NextSlack \/ NextSlackRejects)
 DoMpsRoundtrip == Step(NextMpsRoundtrip)
